@@ -76,6 +76,10 @@ func runE1Check(rc *runCtx, assumptions []string, extra func(cov map[string]inte
 	if extra != nil {
 		extra(cov)
 	}
+	if extraFindings != nil {
+		sum.Findings = append(sum.Findings, extraFindings(cov)...)
+		extraFindings = nil
+	}
 	if len(sum.Infra) > 0 {
 		for _, m := range sum.Infra {
 			fmt.Fprintln(os.Stderr, "INFRASTRUCTURE:", m)
@@ -104,6 +108,9 @@ func runE1Check(rc *runCtx, assumptions []string, extra func(cov map[string]inte
 	}
 	return exit
 }
+
+// extraFindings lets a property add directly enumerated checks to the explored ones.
+var extraFindings func(cov map[string]interface{}) []Finding
 
 var e1Assumptions = []string{
 	"executions are sequentially consistent interleavings of the hooked operations (atomics, mutex/cond operations, Gosched, call/return markers); weaker orderings are covered only through data-race freedom (C14)",
